@@ -5,6 +5,7 @@ import (
 	"fmt"
 	"go/types"
 	"math"
+	"sort"
 	"strconv"
 	"strings"
 	"unicode"
@@ -445,6 +446,81 @@ func (m *Machine) isRangeErr(sfx string, ua []*sym.Term) bool {
 	return m.Branch(m.Ctx.UF("Parse"+sfx, 0, ua...))
 }
 
+// ufOkCond strengthens the uninterpreted "parses" predicate of a strconv function with
+// what is syntactically necessary for the real function to succeed (every byte belongs
+// to the alphabet of the number syntax; ParseBool's finite set of spellings exactly).
+// The real functions satisfy ok => syntax, so ok AND syntax is the same predicate for
+// them; the engine no longer explores branches in which, say, "-o" parses as a float.
+func (m *Machine) ufOkCond(kind string, base int64, okT *sym.Term, ua []*sym.Term) *sym.Term {
+	c := m.Ctx
+	if len(ua) == 0 {
+		return c.Bool(false)
+	}
+	in := func(b *sym.Term, set string) *sym.Term {
+		if b.Op == sym.OpConst {
+			return c.Bool(strings.IndexByte(set, byte(b.K)) >= 0)
+		}
+		acc := c.Bool(false)
+		// ranges of consecutive bytes of the sorted set
+		bs := []byte(set)
+		sort.Slice(bs, func(i, j int) bool { return bs[i] < bs[j] })
+		for i := 0; i < len(bs); {
+			j := i
+			for j+1 < len(bs) && bs[j+1] <= bs[j]+1 {
+				j++
+			}
+			if i == j {
+				acc = c.Or(acc, c.Eq(b, c.BV(8, uint64(bs[i]))))
+			} else {
+				acc = c.Or(acc, c.And(c.Bin(sym.OpUle, c.BV(8, uint64(bs[i])), b), c.Bin(sym.OpUle, b, c.BV(8, uint64(bs[j])))))
+			}
+			i = j + 1
+		}
+		return acc
+	}
+	syn := c.Bool(true)
+	switch kind {
+	case "int":
+		switch base {
+		case 10:
+			for i, b := range ua {
+				if i == 0 && len(ua) > 1 {
+					syn = c.And(syn, in(b, "0123456789+-"))
+				} else {
+					syn = c.And(syn, in(b, "0123456789"))
+				}
+			}
+		case 0:
+			for i, b := range ua {
+				set := "0123456789abcdefABCDEFxXoO_"
+				if i == 0 {
+					set += "+-"
+				}
+				syn = c.And(syn, in(b, set))
+			}
+		default:
+			return okT
+		}
+	case "float":
+		for _, b := range ua {
+			syn = c.And(syn, in(b, "0123456789+-._eEpPxXabcdfABCDFiInNtTyY"))
+		}
+	case "bool":
+		syn = c.Bool(false)
+		for _, w := range []string{"1", "t", "T", "TRUE", "true", "True", "0", "f", "F", "FALSE", "false", "False"} {
+			if len(w) != len(ua) {
+				continue
+			}
+			eq := c.Bool(true)
+			for i := range ua {
+				eq = c.And(eq, c.Eq(ua[i], c.BV(8, uint64(w[i]))))
+			}
+			syn = c.Or(syn, eq)
+		}
+	}
+	return c.And(okT, syn)
+}
+
 func (m *Machine) ufArgs(s Value) ([]*sym.Term, bool) {
 	p := strPieces(s)
 	out := make([]*sym.Term, len(p))
@@ -575,6 +651,81 @@ func (m *Machine) intrinsic(caller *frame, fn *ssa.Function, fi *funcInfo, args 
 			out = append(out, strPieces(args[0])...)
 		}
 		return mkStr(out), true
+	case "strings.FieldsFunc", "strings.IndexFunc", "strings.LastIndexFunc", "strings.TrimFunc", "strings.TrimLeftFunc", "strings.TrimRightFunc", "strings.ContainsFunc":
+		m.Stats.Intrinsics[name] = true
+		p := strPieces(args[0])
+		// the callback's verdict per byte (ASCII only: one rune per byte)
+		hit := make([]bool, len(p))
+		for i, b := range p {
+			var r Value
+			switch b := b.(type) {
+			case int64:
+				if b >= 0x80 {
+					m.unsupported(name + " over non-ASCII bytes")
+				}
+				r = b
+			case *sym.Term:
+				if !m.Branch(m.Ctx.Bin(sym.OpUlt, b, m.Ctx.BV(8, 0x80))) {
+					m.unsupported(name + " over non-ASCII bytes")
+				}
+				r = m.Ctx.Zext(32, b)
+			default:
+				m.unsupported(name + " over an opaque string")
+			}
+			hit[i] = m.condBool(m.call(args[1], []Value{r}))
+		}
+		switch name {
+		case "strings.FieldsFunc":
+			var out []Value
+			start := -1
+			for i := range p {
+				if hit[i] {
+					if start >= 0 {
+						out = append(out, mkStr(p[start:i:i]))
+						start = -1
+					}
+				} else if start < 0 {
+					start = i
+				}
+			}
+			if start >= 0 {
+				out = append(out, mkStr(p[start:len(p):len(p)]))
+			}
+			return strsToSlice(out), true
+		case "strings.IndexFunc", "strings.ContainsFunc":
+			idx := int64(-1)
+			for i := range p {
+				if hit[i] {
+					idx = int64(i)
+					break
+				}
+			}
+			if name == "strings.ContainsFunc" {
+				return idx >= 0, true
+			}
+			return idx, true
+		case "strings.LastIndexFunc":
+			idx := int64(-1)
+			for i := len(p) - 1; i >= 0; i-- {
+				if hit[i] {
+					idx = int64(i)
+					break
+				}
+			}
+			return idx, true
+		}
+		lo, hi := 0, len(p)
+		if name != "strings.TrimRightFunc" {
+			for lo < hi && hit[lo] {
+				lo++
+			}
+		}
+		if name != "strings.TrimLeftFunc" {
+			for hi > lo && hit[hi-1] {
+				hi--
+			}
+		}
+		return mkStr(p[lo:hi:hi]), true
 	case "strings.Map":
 		m.Stats.Intrinsics[name] = true
 		s := strPieces(args[1])
@@ -789,7 +940,7 @@ func (m *Machine) intrinsic(caller *frame, fn *ssa.Function, fi *funcInfo, args 
 			m.unsupported("strconv.Atoi on opaque string")
 		}
 		sfx := fmt.Sprintf("b10_s0_L%d", len(ua))
-		if m.Branch(m.Ctx.UF("ParseInt_ok_"+sfx, 0, ua...)) {
+		if m.Branch(m.ufOkCond("int", 10, m.Ctx.UF("ParseInt_ok_"+sfx, 0, ua...), ua)) {
 			return Tuple{m.Ctx.UF("ParseInt_val_"+sfx, 64, ua...), Iface{}}, true
 		}
 		return Tuple{m.Ctx.UF("ParseInt_errval_"+sfx, 64, ua...), m.strconvErr("Atoi", args[0], m.isRangeErr("Int_range_"+sfx, ua))}, true
@@ -852,7 +1003,7 @@ func (m *Machine) intrinsic(caller *frame, fn *ssa.Function, fi *funcInfo, args 
 		if !ok {
 			m.unsupported("strconv.ParseBool on opaque string")
 		}
-		okT := m.Ctx.UF(fmt.Sprintf("ParseBool_ok_L%d", len(ua)), 0, ua...)
+		okT := m.ufOkCond("bool", 0, m.Ctx.UF(fmt.Sprintf("ParseBool_ok_L%d", len(ua)), 0, ua...), ua)
 		if m.Branch(okT) {
 			return Tuple{m.Ctx.UF(fmt.Sprintf("ParseBool_val_L%d", len(ua)), 0, ua...), Iface{}}, true
 		}
@@ -872,7 +1023,7 @@ func (m *Machine) intrinsic(caller *frame, fn *ssa.Function, fi *funcInfo, args 
 			m.unsupported("strconv.ParseInt on opaque string")
 		}
 		sfx := fmt.Sprintf("b%d_s%d_L%d", base, bits, len(ua))
-		okT := m.Ctx.UF("ParseInt_ok_"+sfx, 0, ua...)
+		okT := m.ufOkCond("int", base, m.Ctx.UF("ParseInt_ok_"+sfx, 0, ua...), ua)
 		if m.Branch(okT) {
 			return Tuple{m.Ctx.UF("ParseInt_val_"+sfx, 64, ua...), Iface{}}, true
 		}
@@ -892,7 +1043,7 @@ func (m *Machine) intrinsic(caller *frame, fn *ssa.Function, fi *funcInfo, args 
 			m.unsupported("strconv.ParseFloat on opaque string")
 		}
 		sfx := fmt.Sprintf("s%d_L%d", bits, len(ua))
-		okT := m.Ctx.UF("ParseFloat_ok_"+sfx, 0, ua...)
+		okT := m.ufOkCond("float", 0, m.Ctx.UF("ParseFloat_ok_"+sfx, 0, ua...), ua)
 		if m.Branch(okT) {
 			return Tuple{m.Ctx.UF("ParseFloat_val_"+sfx, 64, ua...), Iface{}}, true
 		}
